@@ -5,13 +5,13 @@ sys.path.insert(0, "/verif")
 from sim.checks import PROPS
 
 LEVEL = {
- "C01": ("Seeded exploration: generated valid design programs are built through Hdl21's public API under a scheduler-controlled set-iteration order and drawn elaboration histories; the exported package (read twice: protobuf and SPICE text) must have exactly the leaf devices and net partition an independent reference model assigns to the program. Sampling, not proof; the right level because the failure modes are design-specific and the input space is unbounded.", "5 (C01)", "seeded deterministic simulation: scheduler-ordered set iteration + history prefixes; reference connectivity model as oracle; delta-debugged replay files"),
+ "C01": ("Seeded exploration: generated valid design programs are built through Hdl21's public API under a scheduler-controlled set-iteration order and drawn elaboration histories; the exported package (read twice: protobuf and SPICE text) must have exactly the leaf devices and net partition an independent reference model assigns to the program. The check also runs the reconnection-history, adversarial-name and failure-history workloads, because a wrong package after such a history is a connectivity violation too. Sampling, not proof; the right level because the failure modes are design-specific and the input space is unbounded.", "5 (C01)", "seeded deterministic simulation: scheduler-ordered set iteration + history prefixes; reference connectivity model as oracle; delta-debugged replay files"),
  "C02": ("Seeded exploration with planted design faults: one ill-formedness of each class of the property is planted at a drawn site of a valid generated design (optionally after valid sub-modules were elaborated earlier); to_proto / netlist / elaborate must raise. The reference model re-judges every mutant so only genuinely ill-formed ones count.", "5 (C02)", "seeded deterministic simulation with planted design faults; reference-model re-judgement; history prefixes"),
  "C04": ("Seeded exploration of connection-operation histories (connect by call / setattr / connect(), replace, disconnect) against a dict model of the current port map, with a live cross-invariant after every operation and the partition oracle at the end.", "5 (C04)", "seeded operation histories against a sequential reference model, scheduler-ordered set iteration"),
  "C05": ("Seeded exploration with designer names drawn from the elaborator's own naming rules, in drawn declaration orders and set-iteration schedules; every designer signal / instance must survive with its own net, checked by the partition oracle with name-agnostic matching of invented names.", "5 (C05)", "seeded deterministic simulation with adversarial names; reference connectivity model"),
  "C06": ("Closedness monitor run on every package produced by the conn / hist / gen workloads and by sessions over the repository's examples and built-in generators; from_proto and the spice / spectre netlisters must accept each package.", "5 (C06)", "runtime invariant (closedness monitor) evaluated inside seeded simulated sessions"),
- "C07": ("Seeded exploration of elaboration histories: sessions of elaborate / to_proto / netlist calls in drawn orders and groupings over a DAG library; every returned package must be byte-identical to the one a pristine forked process gives for the same design.", "5 (C07)", "seeded session histories with a fresh-process differential oracle (fork of a pristine template)"),
- "C08": ("Fault injection: exceptions injected at every (pass position, module) through custom pass lists, inside rewriting passes, by planted design faults and by raising generator bodies, followed by drawn continuations; later calls must equal a fresh process or raise the original error, never a spurious circular-dependency error and never a half-rewritten package.", "5 (C08)", "deterministic fault injection at pass boundaries / mid-rewrite / generator bodies; fresh-process differential oracle; bounded-recovery liveness"),
+ "C07": ("Seeded exploration of elaboration histories: sessions of elaborate / to_proto / netlist calls in drawn orders and groupings over a DAG library; every returned package must be byte-identical to the one a pristine forked process gives for the same design; includes same-named unrelated modules, late additions that must be refused, and (second workload) histories that contain failed calls.", "5 (C07)", "seeded session histories with a fresh-process differential oracle (fork of a pristine template)"),
+ "C08": ("Fault injection: exceptions injected at every (pass position, module) through custom pass lists, inside rewriting passes, by planted design faults, followed by drawn continuations (retry unchanged, remove the cause and retry, unrelated design, sibling design, the parent edited in place, a brand-new parent of a good sub-module); later calls must equal a fresh process or raise the original error, never a spurious circular-dependency error and never a half-rewritten package.", "5 (C08)", "deterministic fault injection at pass boundaries / mid-rewrite / generator bodies; fresh-process differential oracle; bounded-recovery liveness"),
  "C09": ("Seeded exploration of generator call histories against a dict model (identity, body-run counts, name stability, name distinctness, order/process independence).", "5 (C09)", "seeded call histories with raising bodies against a sequential model; cross-process differential"),
  "C12": ("Each generated design is exported in several pristine children that differ only in the scheduler's set-iteration keys, junk allocation and unrelated earlier elaboration; bytes and netlist text must be identical. A second layer runs real interpreters under different PYTHONHASHSEED values.", "5 (C12)", "seeded schedule search over set-iteration orders (SimSet seam) + real-interpreter hash-seed / allocation perturbation"),
  "C15": ("Seeded sessions over the PDK registry (registration order, default, compile by default / name / module, repeated and multi-PDK compilation) with before/after snapshots and an independent table selector; sampling of device tables, not the exhaustive reading.", "5 (C15)", "seeded session histories over PDK registry and device-call caches with snapshot oracle"),
